@@ -708,9 +708,53 @@ def check_c15(c, result):
     model = c.model(tq)
     c.tie(tq, res, ip, model, result)
     # the JSON document and the text report, byte for byte against Engine/Render.v
-    res_text, _, _ = c.run(tq, mode='text')
+    # (answers above a size bound are left to JSON mode: the text report is assembled quadratically)
+    res_text, _, _ = c.run([(qid, t) for qid, t in tq if len(res.get(qid, ('', ''))[1]) < (60000 if c.tier == 'quick' else 400000)], mode='text')
     rstats, rdis = engine.render_compare(c.work + '/graph.txt', tq, res, res_text, model, c.work, lambda qid, m: len(m['from'].split(',')))
     c.stats.update(rstats)
+    # text mode and JSON mode describe the same rows: the `Result:` row of every text block is the JSON row of that
+    # combination with every value formatted the documented way (string as is, number, [a b] for lists)
+    def fmt_json_value(v):
+        if v is None:
+            return '<nil>'
+        if isinstance(v, bool):
+            return 'true' if v else 'false'
+        if isinstance(v, list):
+            return '[' + ' '.join(fmt_json_value(x) for x in v) + ']'
+        return str(v)
+    for qid, t in tq:
+        m_ = model.get(qid) or {}
+        ocj, pj = res.get(qid, ('missing', ''))
+        oct_, pt = res_text.get(qid, ('missing', ''))
+        if ocj != 'ok' or oct_ != 'ok' or m_.get('infrag') != '1' or '\ufffd' in pj:
+            continue
+        try:
+            d = json.loads(pj)
+        except Exception:
+            continue
+        rs, rows = d.get('result_set') or [], d.get('output') or []
+        k = len(m_['from'].split(','))
+        if not rows or len(rs) != k * len(rows) or any(isinstance(v, dict) for r_ in rows for v in r_):
+            continue
+        want = Counter()
+        for i, r_ in enumerate(rows):
+            rowtxt = re.sub(r'0x[0-9a-f]+', '0xPTR', ''.join(fmt_json_value(v) + ' | ' for v in r_))
+            for e in rs[k * i:k * i + k]:
+                want[(e['file'], e['line'], rowtxt)] += 1
+        got = Counter()
+        for blk in re.split(r'(?m)^\tFile: ', pt)[1:]:
+            mh = re.match(r'(.*), Line: (\d+) \n\tResult: ([^\n]*)\n', blk, re.S)
+            if mh:
+                got[(mh.group(1), int(mh.group(2)), re.sub(r'0x[0-9a-f]+', '0xPTR', mh.group(3)))] += 1
+        c.stats['c15_text_vs_json_rows'] += 1
+        if any('\n' in key[2] for key in want):
+            continue                      # a value with a line break cannot be read back from the text report
+        if got != want:
+            only_t = list((got - want).items())[:1]
+            only_j = list((want - got).items())[:1]
+            result.violations.append(payload_replay('C15', 'text mode and JSON mode do not show the same rows', [t],
+                                                    'only in text mode: %s; only in JSON mode: %s' % (str(only_t)[:300], str(only_j)[:300]), c.files))
+            break
     if rdis and not any('Render.v' in t for t in result.tie_broken):
         result.tie_broken.append('correspondence model/implementation (output rendering): ' + rdis[0][:600])
         result.notes.append(dict(rendering_disagreements=rdis[:5], project=[p for p, _ in c.files]))
@@ -923,7 +967,35 @@ def check_c16(c, result):
             result.violations.append(payload_replay('C16', 'the answer to a query depends on the queries executed before it', [x for _, x in hist[:k + 1]][-12:],
                                                     'query %r: in the history %s; stand-alone %s' % (t[:200], str(a)[:200], str(b)[:200]), c.files))
             break
+    # the same property in TEXT mode (the text report formats values itself, so it is other code that could keep or
+    # change state): list-valued and multi-line values are printed first, then queries that show the same entities
+    tkinds = [k for k in kinds if c.vocab.get(k) is not None]
+    thist = []
+    for i, k in enumerate(tkinds):
+        for a in querygen.KINDS.get(k, ([], [], []))[1][:3]:
+            thist.append(('tl%d_%s' % (i, a), 'FROM %s AS x SELECT x.%s()' % (k, a)))
+        for a in querygen.KINDS.get(k, ([], [], []))[0][:2]:
+            thist.append(('ts%d_%s' % (i, a), 'FROM %s AS x SELECT x.%s()' % (k, a)))
+        thist.append(('td%d' % i, 'FROM %s AS x SELECT x' % k))
+    thist = thist + [(qid + '_again', t) for qid, t in thist]
+    def blocks(payload):
+        return Counter(re.sub(r'0x[0-9a-f]+', '0xPTR', b_) for b_ in re.split(r'(?m)^\tFile: ', payload)[1:])
+    tres, _, tgraph = c.run(thist, mode='text')
+    for hid, t in thist:
+        oc, payload = tres.get(hid, ('missing', ''))
+        r1, _, _ = c.run([(hid, t)], mode='text')
+        oc1, p1 = r1.get(hid, ('missing', ''))
+        c.stats['c16_text_history_answers'] += 1
+        if oc != oc1 or (oc == 'ok' and blocks(payload) != blocks(p1)):
+            k_ = [h for h, _ in thist].index(hid)
+            diff = list((blocks(p1) - blocks(payload)).items())[:1] if oc == oc1 == 'ok' else ''
+            result.violations.append(payload_replay('C16', 'in text mode the answer to a query depends on the queries executed before it', [x for _, x in thist[:k_ + 1]][-10:],
+                                                    'query %r: stand-alone block missing from the answer in the history: %s' % (t, str(diff)[:400]), c.files))
+            break
     g0 = sorted(l.rstrip('\n') for l in open(c.work + '/graph.txt'))
+    if tgraph is not None and sorted(tgraph) != g0:
+        d_ = [l for l in sorted(tgraph) if l not in set(g0)][:1]
+        result.violations.append(payload_replay('C16', 'printing results in text mode modified the loaded graph', [x for _, x in thist][:12], 'first changed entity: %s' % (d_[0][:300] if d_ else ''), c.files))
     if graph_after is not None:
         ga = sorted(graph_after)
         c.stats['c16_graph_lines'] = len(ga)
